@@ -170,9 +170,10 @@ PROPS["C14"] = {
                 "process-level observation of faults/timeouts by the harness runner (signals, watchdog)"],
     "assumptions": COMMON_ASSUME + ["operands whose results do not fit in memory are out of scope (capacity class)"],
     "level": "proof",
-    "level_text": "placeholder",
-    "level_note": "placeholder",
-    "claimed": False,
+    "level_text": "Every modelled operation returns Except Panic: documented panic classes, or .internal for every assert/debug_assert/overflow/precondition/fuel site. The per-property theorems have the shape `model = if <documented condition> then .error <class> else .ok <exact value>`; Props/C14.lean collects the corollaries `Documented x cond cls` / `NeverFails x` for sub, checked_sub, BigInt add/sub, mul, div_rem, checked_div(_rem_euclid), BigInt div_rem, modpow (zeromod/negexp), modinv, to_radix/to_str (radix), shifts (negshift), roots (imaginary/zeroroot), pow (capacity only), bounded sampling (emptyrange); termination is the fuel-sufficiency theorems (fixpoint, pow, Stein gcd, egcd, mac3, rejection loops). PARTIAL for the runtime part: absence of faults, debug-build overflow panics and hangs in the real process is OBSERVED by running a cross-section of every stream (all failure-set requests + a large sample of the rest) in BOTH debug and release profiles under a per-batch watchdog with crash isolation.",
+    "level_note": "Trusted: Lean kernel + {propext, Classical.choice, Quot.sound}; the outcome theorems of C01-C03, C05-C07, C11-C13, C18; process-level observation of signals/timeouts. Capacity-class failures (results that do not fit in memory) are out of the property's scope.",
+    "technique": "Lean 4 outcome-class theorems (documented panic iff documented condition, no internal error reachable, fuel sufficiency) + debug/release differential run with crash and timeout isolation",
+
 }
 
 PROPS["C11"] = {
